@@ -43,12 +43,18 @@ static vh::Layout pair_layout(const std::vector<int>& r, const std::vector<int>&
     return L;
 }
 
-static void emit_par(const char* op, int tap, int n, int k, int m, const vh::Trip& ta, const vh::Trip& tb, ParCSRMatrix* C, bool want, int style)
+static void emit_par(const char* op, int tap, int n, int k, int m, const vh::Trip& ta, const vh::Trip& tb, ParCSRMatrix* C, bool want, int style,
+                     const std::vector<int>& exp_rows, const std::vector<int>& exp_cols)
 {
     auto ents = vh::gather_entries(C);
     std::vector<long long> dims = { C->global_num_rows, C->global_num_cols, C->local_num_rows, C->on_proc_num_cols,
                                     C->on_proc ? C->on_proc->n_rows : -1, C->off_proc ? C->off_proc->n_cols : -1, C->off_proc_num_cols,
-                                    (long long)C->off_proc_column_map.size() };
+                                    (long long)C->off_proc_column_map.size(),
+                                    // the partition object of the result, and the blocks it must describe: rows of the left factor's
+                                    // rows (or columns, for the transposed product), columns of the right factor's columns
+                                    C->partition->first_local_row, C->partition->local_num_rows, C->partition->first_local_col, C->partition->local_num_cols,
+                                    0, exp_rows[E.rank], 0, exp_cols[E.rank] };
+    for (int p = 0; p < E.rank; p++) { dims[12] += exp_rows[p]; dims[14] += exp_cols[p]; }
     auto alld = vh::gather_ll(dims);
     if (E.rank == 0 && want) {
         vh::Case c("C06", op); c.i(tap).i(style).i(n).i(k).i(m).vec(vh::trip_ll(ta)).vec(vh::trip_ll(tb)).vec(ents);
@@ -73,7 +79,7 @@ static void par_case(vh::Rng& g, int it)
         ParCOOMatrix* Ac = vh::assemble_coo(ta, LA, E.rank); ParCOOMatrix* Bc = vh::assemble_coo(tb, LB, E.rank);
         ParCSRMatrix* A = Ac->to_ParCSR(); ParCSRMatrix* B = Bc->to_ParCSR();
         ParCSRMatrix* C = A->mult(B, tap);
-        emit_par("parmult", tap, n, k, m, ta, tb, C, E.want(), style);
+        emit_par("parmult", tap, n, k, m, ta, tb, C, E.want(), style, R, Cc);
         delete C;
         // A^T * B2 where B2 shares A's row layout:  (k x n)^T ... use A (n x k) and D (n x m): A^T D is k x m
         vh::Trip td = vh::gen_trip(g, n, m, g.range(0, 3 * cap), g.coin(), false, cancel ? 1 : 3);
@@ -81,7 +87,7 @@ static void par_case(vh::Rng& g, int it)
         ParCOOMatrix* Dc = vh::assemble_coo(td, LD, E.rank); ParCSRMatrix* D = Dc->to_ParCSR();
         snprintf(buf, 96, "par/mult_T/style%d%s", style, tap ? "/tap" : ""); E.about(buf);
         ParCSRMatrix* CT = D->mult_T(A, tap);
-        emit_par("parmultT", tap, n, k, m, ta, td, CT, E.want(), style);
+        emit_par("parmultT", tap, n, k, m, ta, td, CT, E.want(), style, I, Cc);
         delete CT; delete D; delete Dc;
         delete A; delete B; delete Ac; delete Bc;
     }
@@ -97,7 +103,7 @@ static void par_case(vh::Rng& g, int it)
             ParCSRMatrix* AP = S->mult(P, tap);
             ParCSCMatrix* Pcsc = P->to_ParCSC();
             ParCSRMatrix* Ac = AP->mult_T(Pcsc, tap);
-            emit_par("galerkin", tap, n, n, k, tsq, tp, Ac, E.want(), style);
+            emit_par("galerkin", tap, n, n, k, tsq, tp, Ac, E.want(), style, I, I);
             delete Ac; delete Pcsc; delete AP; delete S; delete P; delete Sc; delete Pc;
         }
     }
